@@ -15,9 +15,17 @@
   * §11  board mfg. date/time: minutes from 0:00 hrs 1/1/96, 3 bytes LS byte first
   * §16  multi-record area: records of a 5-byte header (type id, bit 7 end of list | version
          02h, length, record checksum, header checksum) followed by the record data
-  * PICMG: OEM record type C0h, manufacturer id 00315Ah LS byte first, PICMG record id,
-         record format version; MTCA.0 power module capability record id 27h with the maximum
-         current output in tenths of an ampere, LS byte first
+  * §16.2.1 / §18.7 record type ids C0h–FFh are OEM record types, shared by all manufacturers;
+         the data of an OEM record start with the manufacturer's IANA id, 3 bytes LS byte first
+  * PICMG 3.0 §3.6.x: a PICMG record is an OEM record of type C0h whose data start with the
+         manufacturer id 00315Ah (LS byte first), the PICMG record id and the record format
+         version (5 bytes at least); MTCA.0 power module capability record: PICMG record id 27h
+         with the maximum current output in tenths of an ampere, LS byte first (7 bytes at least).
+         A C0h record of another manufacturer, or one too short to hold the PICMG record id and
+         version, is an ordinary OEM record: a reader reports type, version, length and data.
+  * an info area is at least 8 bytes (version, length, …, C1h, checksum): a length byte 00h is
+         never valid, and the declared length has to lie inside the data the area is read from;
+         its zero checksum is over exactly the declared length
 
   `FruImage` is the abstract content, `encodeFru` the storage image, `view` what a faithful
   parser has to report for it, `checksumsOk` the acceptance condition the format defines.
@@ -295,8 +303,16 @@ def Field.wf : Field → Bool
 def InfoArea.wf (a : InfoArea) : Bool :=
   isBytes a.pre && a.fields.all Field.wf && a.custom.all Field.wf && decide (a.total / 8 < 256)
 
+/-- OEM record data that identify a PICMG record: the PICMG manufacturer id followed by (at
+least) the PICMG record id and the record format version -/
+def isPicmgData (d : List Nat) : Bool := decide (5 ≤ d.length) && d.take 3 == leBytes 3 picmgMfgId
+
+/-- `generic` is any record that is not a PICMG record: every type id (C0h included – then the
+data are another manufacturer's, or too short for a PICMG record).  The same bytes with the PICMG
+signature are written as `picmg` / `power`; what is left out is a C0h/00315Ah record with PICMG
+record id 27h and fewer than 7 data bytes (a truncated power module capability record). -/
 def Record.wf : Record → Bool
-  | .generic t d => decide (t < 256) && decide (t ≠ picmgRecordType) && isBytes d && decide (d.length ≤ 255)
+  | .generic t d => decide (t < 256) && !(t == picmgRecordType && isPicmgData d) && isBytes d && decide (d.length ≤ 255)
   | .picmg pid ver payload =>
     decide (pid < 256) && decide (pid ≠ powerModuleId) && decide (ver < 256) && isBytes payload &&
       decide (payload.length ≤ 250)
@@ -371,12 +387,18 @@ def view (img : FruImage) : FruView :=
 
 Evaluated on raw bytes, with the extents the bytes themselves define: header = first 8 bytes;
 info area at offset `8·bs[k]` of length `8·(area byte 1)`; records chained through their
-length bytes up to the end-of-list flag.  Ranges are clamped to the available data. -/
+length bytes up to the end-of-list flag.
+
+An info area's checksum is over its DECLARED length: the declared length is at least one unit of
+8 bytes and lies inside the data (so every byte of the area – the length byte itself included –
+is inside the span whose sum is verified; a length of 0 would verify nothing, a length behind the
+end of the data would verify a span that does not exist). -/
 
 def areaSumOk (d : List Nat) : Bool :=
   match d with
-  | [] => true                       -- nothing there: nothing to check
-  | _ => sum8 (d.take (8 * d.getD 1 0)) == 0
+  | [] => true       -- the header's offset points behind the end of the data: no area bytes at all
+  | _ => decide (1 ≤ d.getD 1 0) && decide (8 * d.getD 1 0 ≤ d.length) &&
+           sum8 (d.take (8 * d.getD 1 0)) == 0
 
 /-- header and body checksum of every record of the chain (`fuel` ≥ number of records) -/
 def recordsOk : Nat → List Nat → Bool
